@@ -238,10 +238,37 @@ fn create_doc_for_if_else(
   comment_store: &CommentStore,
   if_else: &expr::IfElse<()>,
 ) -> Document {
-  let expanded = create_doc_for_if_else_customized_flattened(heap, comment_store, true, if_else);
-  if let Some(flattened) =
-    create_doc_for_if_else_customized_flattened(heap, comment_store, false, if_else).flatten()
-  {
+  // The sub-documents do not depend on whether the blocks are force-expanded: build them once and
+  // assemble both layouts from them (building each layout separately is exponential in the nesting).
+  let (chain, final_else) = flattened_if_else(if_else);
+  let parts = chain
+    .into_iter()
+    .enumerate()
+    .map(|(i, FlattenedIfElseChainElement { comments, condition, e1 })| {
+      (
+        create_doc_for_if_else_condition(
+          heap,
+          comment_store,
+          if i == 0 { NO_COMMENT_REFERENCE } else { comments },
+          condition,
+        ),
+        create_block_parts(heap, comment_store, e1),
+      )
+    })
+    .collect::<Vec<_>>();
+  let final_else_parts = create_block_parts(heap, comment_store, final_else);
+  let assemble = |force_expanded: bool| {
+    let mut documents = Vec::new();
+    for (condition_doc, block_parts) in &parts {
+      documents.push(condition_doc.clone());
+      documents.push(assemble_doc_for_block(block_parts.clone(), force_expanded));
+      documents.push(Document::Text(" else "));
+    }
+    documents.push(assemble_doc_for_block(final_else_parts.clone(), force_expanded));
+    Document::concat(documents)
+  };
+  let expanded = assemble(true);
+  if let Some(flattened) = assemble(false).flatten() {
     Document::Union(Rc::new(flattened), Rc::new(expanded))
   } else {
     expanded
@@ -304,29 +331,6 @@ fn create_doc_for_if_else_condition(
     }
   };
   documents.push(Document::Text(" "));
-  Document::concat(documents)
-}
-
-fn create_doc_for_if_else_customized_flattened(
-  heap: &Heap,
-  comment_store: &CommentStore,
-  force_expanded: bool,
-  if_else: &expr::IfElse<()>,
-) -> Document {
-  let (chain, final_else) = flattened_if_else(if_else);
-  let mut documents = Vec::new();
-  for (i, FlattenedIfElseChainElement { comments, condition, e1 }) in chain.into_iter().enumerate()
-  {
-    documents.push(create_doc_for_if_else_condition(
-      heap,
-      comment_store,
-      if i == 0 { NO_COMMENT_REFERENCE } else { comments },
-      condition,
-    ));
-    documents.push(create_doc_for_block(heap, comment_store, force_expanded, e1));
-    documents.push(Document::Text(" else "));
-  }
-  documents.push(create_doc_for_block(heap, comment_store, force_expanded, final_else));
   Document::concat(documents)
 }
 
@@ -507,12 +511,13 @@ fn create_doc_for_parenthesized_expression_list(
   )
 }
 
-fn create_doc_for_block(
+type BlockParts = (Vec<Document>, Option<Document>);
+
+fn create_block_parts(
   heap: &Heap,
   comment_store: &CommentStore,
-  force_expanded: bool,
   block: &expr::Block<()>,
-) -> Document {
+) -> BlockParts {
   let mut segments = Vec::new();
   for stmt in &block.statements {
     segments.push(statement_to_document(heap, comment_store, stmt));
@@ -529,6 +534,13 @@ fn create_doc_for_block(
     segments.push(Document::LineHard);
   }
   let final_expr_doc = block.expression.as_ref().map(|e| create_doc(heap, comment_store, e));
+  (segments, final_expr_doc)
+}
+
+fn assemble_doc_for_block(
+  (mut segments, final_expr_doc): BlockParts,
+  force_expanded: bool,
+) -> Document {
   if segments.is_empty() {
     if force_expanded {
       Document::concat(vec![
@@ -567,6 +579,15 @@ fn create_doc_for_block(
       Document::Text("}"),
     ])
   }
+}
+
+fn create_doc_for_block(
+  heap: &Heap,
+  comment_store: &CommentStore,
+  force_expanded: bool,
+  block: &expr::Block<()>,
+) -> Document {
+  assemble_doc_for_block(create_block_parts(heap, comment_store, block), force_expanded)
 }
 
 fn create_doc_without_preceding_comment(
